@@ -76,8 +76,8 @@ func runC01(c *ev.Ctx) {
 		cases = append(cases, ev.Case{Idx: i, Desc: fmt.Sprintf("%+v", cc), Data: cc})
 	}
 	// backward references at the far end of the distance range need > 2^20 pixels
-	for k := 0; k < c.N(2, 12); k++ {
-		e := c01Case{Class: "farrepeat", Alpha: "opaque", Type: "NRGBA", W: 1024, H: 1040 + 20*k, Method: []int{4, 2, 6, 3, 5}[k%5], Quality: []float32{80, 100, 90}[k%3]}
+	for k := 0; k < c.N(8, 48); k++ {
+		e := c01Case{Class: "farrepeat", Alpha: "opaque", Type: "NRGBA", W: 1024, H: 1040 + 20*k, Method: []int{4, 2, 6, 3, 5, 0, 1}[k%7], Quality: []float32{80, 100, 90, 76}[k%4]}
 		cases = append(cases, ev.Case{Idx: len(cases), Desc: fmt.Sprintf("%+v", e), Data: e})
 	}
 	if c.Thorough() {
@@ -105,7 +105,7 @@ func c01One(c *ev.Ctx, cs ev.Case, lwOK bool) {
 	base := img.Gen(r, cc.Class, cc.Alpha, cc.W, cc.H)
 	if cc.Class == "farrepeat" {
 		// > 2^20 pixels with a run repeated just below 2^20 pixels later (distance-code range end)
-		base = img.FarRepeat(r, cc.W, cc.H, 1<<20-1-r.Intn(119), 150+r.Intn(100))
+		base = img.FarRepeat(r, cc.W, cc.H, 1<<20-1-r.Intn(18), 150+r.Intn(100))
 	}
 	if r.Intn(4) == 0 {
 		base = img.Shift(base, r.Intn(30)-8, r.Intn(30)-8)
